@@ -26,6 +26,7 @@ Oracle (independent of the model), from the property text:
      constructor arguments, other instances or that fresh instance.
 """
 import heap_common as H
+import heap_shapes as HS
 
 PID = "C08"
 LEAN_TARGETS = ["SpecVerif.Props.C08"]
@@ -46,7 +47,18 @@ RULE = (
     "attributes) x history of 5-14 operations generated while executing them: constructor calls with argument objects "
     "(also for inherited attributes), in-place element helpers, assignments through nested instances, plain container "
     "mutations at depth 1 and 2, reset_<attr> (both forms), reset, del, further constructor calls; non-trivial = the "
-    "line changed the world or raised; distinct = distinct (table, pre-world, line) triples."
+    "line changed the world or raised; distinct = distinct (table, pre-world, line) triples. extra = overflow attribute "
+    "and init=False constructions; extra (2) = class families outside the heap grammar (harness/heap_shapes.py; real "
+    "code + oracle): 17 value kinds (tuple-typed attributes holding scalars / lists / spec instances, KeyedList/KeyedSet "
+    "of scalars and of keyed spec items, containers of containers, nested plain / frozen spec items) x four ways of "
+    "declaring the default + spec-subclass and plain-subclass overrides x storage (plain, do_not_copy, Alias local "
+    "override / passthrough / fallback, overridable and cached spec_property, property with setter, unmanaged entries) x "
+    "state (size, how entries were materialised, generation 0-3, aliasing inside the instance) x route (every "
+    "copy-on-write helper, every in-place helper / assignment / del, deepcopy, reset_/reset); roots = constructor "
+    "arguments, class-level defaults, the instance, a peer built from the same argument objects, the derived instance, "
+    "a second derivation, a later instance; quick: every 9th scenario of the systematic part (offset by seed) + 250 "
+    "random in seeded random order, the second half after a fixed prelude of earlier calls (`()`, `(1, 2)`, empty "
+    "containers, None ... pushed through the library first: module-level caches); thorough: all + 5000 random."
 )
 ASSUMPTIONS = [
     "restricted to init-enabled attributes (the property's quantifier); do_not_copy attributes share the constructor "
@@ -103,18 +115,42 @@ def setup():
 
 def gen_cases(tier, rng):
     if tier == "search":
+        k = 0
         while True:
-            yield H.gen_case(rng, PROFILE)
+            k += 1
+            # every 5th case of the search stream is a scenario of the class families outside the heap grammar
+            yield HS.random_case(PID, rng) if k % 5 == 0 else H.gen_case(rng, PROFILE)
     n = 260 if tier == "quick" else 5500
     for _ in range(n):
         yield H.gen_case(rng, PROFILE)
 
 
-model_lines = H.model_lines
-real_lines = H.real_lines
-shrink = H.shrink_case
-nontrivial = H.nontrivial_keys
-tags = H.op_tags
+def _special(case):
+    return isinstance(case, dict) and ("extra" in case or HS.is_case(case))
+
+
+def model_lines(case):
+    return [] if _special(case) else H.model_lines(case)
+
+
+def real_lines(case):
+    return [] if _special(case) else H.real_lines(case)
+
+
+def shrink(case, at=None):
+    return [] if _special(case) else H.shrink_case(case, at)
+
+
+def nontrivial(case, real):
+    if HS.is_case(case):
+        return [("shapes", H.dumps(case["sc"]))]
+    return [] if _special(case) else H.nontrivial_keys(case, real)
+
+
+def tags(case, real):
+    if HS.is_case(case):
+        return ["shapes:" + HS.route_kind(case["sc"]["route"])]
+    return [] if _special(case) else H.op_tags(case, real)
 
 
 # ---------------------------------------------------------------------------
@@ -127,6 +163,8 @@ def _default_roots(world):
 
 
 def oracle(case):
+    if HS.is_case(case):  # a scenario of the class families outside the heap grammar (harness/heap_shapes.py)
+        return HS.judge_case(case)
     if isinstance(case, dict) and "extra" in case:
         return _extra_oracle(case)
     violations = []
@@ -460,6 +498,10 @@ def _extra_oracle(case):
 
 
 def extra(tier, rng):
+    return HS.merge_extra(_extra_constructor_routes(tier, rng), HS.extra_section(PID, tier, rng))
+
+
+def _extra_constructor_routes(tier, rng):
     evaluations, violations, keys = 0, [], []
     for cname in ("Ov", "OvSub", "OvPlain", "OvShared"):
         for shape in ("list", "nested", "empty", "named-like-attr", "with-declared"):
@@ -502,6 +544,6 @@ KNOWN_MATCHERS = {"init_false_shared_default": _kf_init_false_shared_default}
 
 MANIFEST_ENTRY = {
     "level_text": "Lean 4 proof, over the heap model with object identities in which class-level default objects, constructor arguments and instances are roots, that the constructor stores only scalars, freshly allocated objects or (for do_not_copy attributes only) the supplied argument, that the value installed by reset_<attr>/del/reset is freshly allocated and is produced by the very computation (default lookup along the class chain incl. plain-subclass overrides and factories, then the attribute's preparer) the constructor runs for a non-supplied attribute, and that an in-place write is invisible through any value that cannot reach the written object; the content-level statement 'equal to a newly constructed instance' is kept as an open full statement and validated on every run; tied to /repo by executing generated histories (every way of declaring and overriding a default, nested in-place mutation, reset/del, further constructions) on the real spec_classes and on the model and comparing contents and the alias pattern against class defaults, arguments and peers after every step.",
-    "level_note": "Trusted: Lean kernel; axioms propext/Classical.choice/Quot.sound only; the hand-written heap model and the correspondence harness; default factories pure. init=False attributes and the overflow attribute are outside the modelled grammar: real-code oracle only (extra). The theorems are about the model; the per-run correspondence ties them to the code.",
+    "level_note": "Trusted: Lean kernel; axioms propext/Classical.choice/Quot.sound only; the hand-written heap model and the correspondence harness; default factories pure. init=False attributes, the overflow attribute, tuple-typed attributes, keyed containers, Alias / spec_property / property backed attributes and the order of earlier calls in the process (module-level caches) are outside the modelled grammar: real-code oracle over generated class families only (extra, harness/heap_shapes.py). The theorems are about the model; the per-run correspondence ties them to the code.",
     "technique": "Lean 4 freshness/provenance theorems over a hand-written heap model; differential correspondence of alias patterns (defaults, arguments, peers) against the real classes",
 }
